@@ -125,6 +125,7 @@ class FromEpNameBody(FnSpec):
     file = "plugin/types.py"
     qual = "from_ep_name"
     props = ("C16",)
+    pure = True  # callers (c16.FromEpName.result) see the (name, version) of the entry point name
 
     def init(self):
         self.bindings["SemVerStr"] = lambda cx, s: (s if cx.decide(SV_OK(s.t)) else cx.py_raise("TypeError", "not a version text"))
